@@ -32,6 +32,8 @@ var specials = []string{
 	"00", "0.10", "1.50", "-1", "-0", "+1", "1e5", "0x1", " 1", "1 ", "True", "tru", "null",
 	"\t", "\r", "\b", "\f", "\x00", "\x1f", "\x7f", "/", " ", "{", "[1]", `"a"`, "a,b", ": ",
 	"é\xff", "\xc3", "\xed\xa0\x80",
+	// signed and zero-padded numeric shapes
+	"-007", "-00", "-01", "-00.5", "-0700", "+007", "-0.5", "-.5", "--1", "-1e5", "-01e2", "-1.", "-10", "-0.0", "-123456789012345678901234567890",
 }
 
 // values returns all strings of up to maxLen alphabet symbols, then the
